@@ -619,3 +619,81 @@ lemma('pop-sequence-is-stable-priority-order', props=('C09',),
            ('later-insertion-has-larger-count', _insertion_order_is_count_order)],
       note='history clause: rep_ok is established by __init__ and preserved by every '
            'operation (their rep-invariant obligations), hence holds after any finite history')
+
+
+# ---- iteration: every live entry once, in stable priority order, the queue untouched ----------------------
+# library contract of heapq.nsmallest(len(heap), heap) WITHOUT key: all entries of the heap in list order
+# [prio, count, task], which for pairwise distinct counts (rep invariant) is the (prio, count) order:
+# SORTED(i), 0 <= i < card, enumerates the heap entries bijectively with strictly increasing key.
+SORTED = z3.Function('sorted_entry', z3.IntSort(), E)
+RANK = z3.Function('rank_of_entry', E, z3.IntSort())
+
+
+def key_lt(e1, e2):
+    return z3.Or(prio(e1) < prio(e2), z3.And(prio(e1) == prio(e2), cnt(e1) < cnt(e2)))
+
+
+def sorted_axioms(inQ):
+    i, j = z3.Ints('i_s j_s')
+    e = z3.Const('e_s', E)
+    n = card(inQ)
+    return [z3.ForAll([i], z3.Implies(z3.And(i >= 0, i < n), z3.And(inQ[SORTED(i)], RANK(SORTED(i)) == i))),
+            z3.ForAll([e], z3.Implies(inQ[e], z3.And(RANK(e) >= 0, RANK(e) < n, SORTED(RANK(e)) == e))),
+            z3.ForAll([i, j], z3.Implies(z3.And(i >= 0, i < j, j < n), key_lt(SORTED(i), SORTED(j))))]
+
+
+def iter_ext(eng, mod, name, args, kwargs, st, node):
+    if mod == 'heapq' and name == 'nsmallest' and len(args) == 2 and not kwargs \
+            and args[1].k == 'seq' and args[1].extra.get('tq') == 'heap' and args[0].k == 'int':
+        inQ = Gz(st, '__inQ', eng)
+        n = card(inQ)
+        x = z3.Const('x_it', E)
+        y = z3.Const('y_it', E)
+        eng.oblige(st, 'nsmallest-pre[all entries asked for; counts distinct]', 'call-pre', z3.And(
+            args[0].z == n,
+            z3.ForAll([x, y], z3.Implies(z3.And(inQ[x], inQ[y], x != y), cnt(x) != cnt(y)))), node)
+        st.pc.extend(sorted_axioms(inQ))
+        st.trace.append(('sorted-copy',))
+        return [(st, V('seq', extra={'len': n, 'get': (lambda eng_, i, st_: V('entry', z=SORTED(i)))}))]
+    return h_ext(eng, mod, name, args, kwargs, st, node)
+
+
+def iter_since(trace):
+    idx = -1
+    for i, e in enumerate(trace):
+        if e[0] == 'loop-head':
+            idx = i
+    return trace[idx + 1:] if idx >= 0 else None
+
+
+def iter_pass(c, L):
+    ev = iter_since(c.trace)
+    if not ev:
+        return z3.BoolVal(True)
+    ys = [e for e in ev if e[0] == 'yield']
+    s = S(c.post.self)
+    e = SORTED(L.i - 1)
+    if not ys:
+        return s.task[e] == REMOVED                                   # a removed entry is skipped
+    if len(ys) != 1 or ys[0][1].k != 'tuple' or len(ys[0][1].items) != 2:
+        return z3.BoolVal(False)
+    p, t = ys[0][1].items
+    if p.k != 'real' or t.k != 'task':
+        return z3.BoolVal(False)
+    return z3.And(s.task[e] != REMOVED, p.z == prio(e), t.z == s.task[e])   # (time, task) of the i-th entry in order
+
+
+def iter_post(c):
+    # nothing of the queue is changed by iterating
+    return z3.BoolVal(not c.st.ghost.get('written'))
+
+
+contract(F, 'TaskQueue.__iter__', props=('C09', 'C07'), params={'self': 'self'},
+         requires=lambda c: rep_ok(S(c.pre.self)),
+         ensures=[('the-queue-is-not-modified', iter_post)],
+         loops={0: Loop(inv=iter_pass, kinds={'prio': 'real', 'count': 'int', 'task': task_kind,
+                                               'queue': (lambda eng, n: V('obj', oid='havoc'))})},
+         modifies=[], opts={'generator_trace': True},
+         **dict(common, hooks=dict(HOOKS, ext=iter_ext)), native=False,
+         note='per pass: the i-th entry of the (prio, count) order is yielded as (time, task) iff it is not removed; '
+              'with the enumeration axioms every live entry is yielded exactly once in stable priority order')
